@@ -1,6 +1,6 @@
 (** Entry point of the extracted model driver: one case line in, one result line out.
     The first token selects the operation. *)
-From Lisp Require Import Wire Equal Boot.
+From Lisp Require Import Wire Equal Boot Binder.
 
 Definition bad : list N := s_ "BADCASE".
 
@@ -38,11 +38,66 @@ Definition run_program (ts : list tok) : list N :=
   | _ => bad
   end.
 
+(** B <ctx> <nfixed> <ty..> <variadic> <nres> <ndecl> <decl..> <behaviour> <nargs> <args..>:
+    one call through the reflective binder.  Output: R (registration panics) | A (count error)
+    | T (type error) | C <outcome> (function entered) *)
+Definition ty_of_code (z : Z) : ty :=
+  if Z.eqb z 1 then TAny else if Z.eqb z 2 then TInt else if Z.eqb z 3 then TString
+  else if Z.eqb z 4 then TVector else if Z.eqb z 5 then TBool else TOtherTy.
+
+Fixpoint take_zs (n : nat) (ts : list tok) : option (list Z * list tok) :=
+  match n with
+  | O => Some ([], ts)
+  | S n' => match ts with
+            | TNum z :: r => match take_zs n' r with Some (l, r') => Some (z :: l, r') | None => None end
+            | _ => None
+            end
+  end.
+
+Definition run_binder (ts : list tok) : list N :=
+  match ts with
+  | TNum ctx :: TNum nf :: r =>
+      match take_zs (Z.to_nat nf) r with
+      | Some (fx, TNum va :: TNum nres :: TNum nd :: r1) =>
+          match take_zs (Z.to_nat nd) r1 with
+          | Some (decl, TNum beh :: TNum na :: r2) =>
+              match parse_values (Z.to_nat na) r2 with
+              | Some (args, []) =>
+                  let sg := mkSig (Z.eqb ctx 1) (map ty_of_code fx)
+                                  (if Z.eqb va 0 then None else Some (ty_of_code va)) (Z.to_nat nres) in
+                  match bind sg decl with
+                  | RegPanic _ => s_ "R"
+                  | Bound mn mx =>
+                      match gate sg mn mx args with
+                      | Err e => match e with VLispErr (VStr _) _ => s_ "T" | _ => s_ "A" end
+                      | Ok _ =>
+                          let f := fun a : list val =>
+                            if Z.eqb beh 0 then Ok (VInt (Z.of_nat (length a)))
+                            else if Z.eqb beh 1 then Err (VGoErr (s_ "c20 sentinel"))
+                            else Panic (s_ "c20 sentinel") in
+                          match invoke sg mn mx f args with
+                          | Ok v => s_ "C V " ++ show_val v
+                          | Err _ => s_ "C E"
+                          | _ => s_ "P"
+                          end
+                      | _ => s_ "P"
+                      end
+                  end
+              | _ => bad
+              end
+          | _ => bad
+          end
+      | _ => bad
+      end
+  | _ => bad
+  end.
+
 Definition run_tokens (ts : list tok) : list N :=
   match ts with
   | TTag c :: r =>
       if N.eqb c (tagc "Q") then run_equal r
       else if N.eqb c (tagc "P") then run_program r
+      else if N.eqb c (tagc "B") then run_binder r
       else bad
   | _ => bad
   end.
